@@ -21,6 +21,7 @@ import os
 import re
 import shutil
 import tempfile
+import threading
 from typing import Any
 
 from . import client as cl
@@ -132,7 +133,7 @@ TERMS = ["pandas", "awkward", "root", "parquet"]
 FAULT_KINDS = [
     "exec_error", "stall_cancel", "cancel", "timeout", "sync_in_loop", "derive_fail",
     "shared_ast", "typed", "unbind", "nontransportable", "touch", "override", "dup_exec",
-    "threads", "capture_fault", "small_stack",
+    "threads", "capture_fault", "small_stack", "caller_interrupt",
 ]
 
 SAMPLES = [
@@ -472,6 +473,10 @@ def generate(prop: str, seed: int, tier: str = "quick", fault_free: bool = False
                   "plan": _gen_plan(f, faults, True)}
             if "small_stack" in faults and f.random() < 0.3:
                 op["stack"] = f.choice([20, 30, 45, 70])  # frames for the worker thread
+            elif "caller_interrupt" in faults and f.random() < 0.25:
+                # the thread blocked in value() is interrupted (SIGINT) while its executor is
+                # busy; the abandoned executor finishes later, nobody waits for its answer
+                op["interrupt"] = True
             ops.append(op)
         elif k == "spawn":
             si = w.randrange(64)
@@ -485,6 +490,8 @@ def generate(prop: str, seed: int, tier: str = "quick", fault_free: bool = False
                 tmo = f.choice([0.0, 0.5, 30.0, 4000.0])
             op = {"op": "spawn", "stream": si, "via": via, "plan": plan, "timeout": tmo,
                   "override": ("override" in faults and w.random() < 0.15)}
+            if via == "sync" and "caller_interrupt" in faults and f.random() < 0.25:
+                op["interrupt"] = True
             if "dup_exec" in faults and w.random() < 0.35:
                 op["title_pool"] = w.randrange(3)  # a retry / an untitled call: titles repeat
             ops.append(op)
@@ -759,6 +766,17 @@ class Forest:
             return None
         call["starts"].append(rec)
         plan = call["plan"]
+        if call.get("interrupt") and not call.get("interrupt_sent"):
+            # fault: the thread that is blocked in value() right now is interrupted (what SIGINT
+            # does to a waiting main thread); this executor stays busy until the simulator lets
+            # it go on, and nobody waits for its answer any more
+            gate = threading.Lock()
+            gate.acquire()
+            call["gate"] = gate
+            if vloop.interrupt_waiting_caller():
+                call["interrupt_sent"] = True
+                self.ev("caller_interrupt", peer, title)
+                gate.acquire()
         try:
             if plan[0] == "stall":
                 await asyncio.get_running_loop().create_future()
@@ -1430,11 +1448,27 @@ class Forest:
             call["res"] = self.classify_exc(call, e)
         finally:
             CURRENT_CALL.reset(tok)
+            if call.get("interrupt_sent"):
+                self.finish_abandoned(call)
             if not mt:
                 self.sync_call = prev
                 self.sync_block += self.world.now - t0
             call["done_t"] = self.world.now
         self.ev("call_done", call["no"], call["res"][0])
+
+    def arm_interrupt(self, op, call):
+        if op.get("interrupt") and self.world.mt is None:
+            call["interrupt"] = True
+
+    def finish_abandoned(self, call):
+        """The caller was thrown out of value(); its executor is still parked.  Let it finish
+        now (the caller's thread waits for the worker thread, so nothing runs concurrently)."""
+        self.stat("fault_caller_interrupted")
+        call["gate"].release()
+        left = list(self.world.abandoned)
+        del self.world.abandoned[:]
+        for t in left:
+            t.join()
 
     async def one(self, call):
         try:
@@ -1469,6 +1503,7 @@ class Forest:
         m = self.ref(op, "stream")
         self.last_op = "execute"
         call = self.new_call(m, op["plan"], op["override"], "sync", None, titled=op["titled"])
+        self.arm_interrupt(op, call)
         n0 = self.exec_starts
         if op.get("stack"):
             # resource fault: the library runs with few frames left; a deep recursion overflows
@@ -1504,6 +1539,8 @@ class Forest:
                              title_pool=op.get("title_pool"))
         if op.get("title_pool") is not None:
             self.stat("calls_with_repeated_title")
+        if op["via"] == "sync":
+            self.arm_interrupt(op, call)
         t = loop.create_task(self.one(call), name=f"call-{call['no']}")
         call["task"] = t
         call["op_id"] = self.cur_id
@@ -1581,6 +1618,14 @@ class Forest:
             raise Violation("C12/liveness", {"call": call["no"], "what": "no result recorded"})
         if res[0] == "exc" and isinstance(res[1], (vloop.Deadlock, vloop.StepCap)):
             raise Violation("C12/liveness", {"call": call["no"], "what": repr(res[1])})
+        if call.get("interrupt_sent") and res[0] == "exc" and isinstance(res[1], KeyboardInterrupt) \
+                and res[1] is not call["err"]:
+            # the caller was interrupted: it has no result; the executor ran once all the same
+            self.stat("result_caller_interrupted")
+            if "C12" in self.oracles and len(st) != 1:
+                raise Violation("C12/count", {"call": call["no"], "starts": len(st),
+                                              "what": "interrupted caller"})
+            res = call["res"] = ("interrupted",)
         self.stat(f"result_{res[0]}")
         m = call["m"]
         if "C12" in self.oracles:
